@@ -165,6 +165,11 @@ func (c *Ctx) evalTopic(x *X, st int, depth int) (string, bool) {
 			if _, isAddr := x.V.(*ssa.FieldAddr); isAddr {
 				return "", false // the address of the field, not its value
 			}
+			if x.V != nil {
+				if b, ok := x.V.Type().Underlying().(*types.Basic); ok && b.Info()&types.IsString != 0 {
+					return zp() // the expression tree elides the dereference: this node is the string *Topic
+				}
+			}
 			if st == 0 {
 				return "nil", true
 			}
@@ -266,21 +271,42 @@ func (c *Ctx) payloadWrites(fn *ssa.Function, data *X) ([]BufWrite, string) {
 }
 
 func (c *Ctx) payloadWritesEnv(fn *ssa.Function, data *X, env map[ssa.Value]*X) ([]BufWrite, string) {
-	alts, why, bad := c.assemble(fn, data, env, nil, 0)
-	if alts == nil {
+	seq, why, bad := c.assemble(fn, data, env, nil, 0)
+	if seq == nil {
 		if bad {
 			why = "WRONG: " + why
 		}
 		return nil, why
 	}
-	return mergeAlts(alts)
+	if len(seq.ws) == 0 {
+		return nil, "payload is empty"
+	}
+	// a piece is guarded by the facts holding where it is appended, less those holding where the first one is
+	base := map[string]bool{}
+	for _, f := range seq.facts[0] {
+		base[f] = true
+	}
+	out := make([]BufWrite, len(seq.ws))
+	for i := range seq.ws {
+		out[i] = seq.ws[i]
+		out[i].Guards = nil
+		seen := map[string]bool{}
+		for _, f := range seq.facts[i] {
+			if !base[f] && !seen[f] {
+				seen[f] = true
+				out[i].Guards = append(out[i].Guards, f)
+			}
+		}
+		sort.Strings(out[i].Guards)
+	}
+	return out, ""
 }
 
-// payAlt is one way the payload is put together: its pieces in order, each
-// with the branch facts under which it is appended.
+// payAlt is a payload as a sequence of pieces, each with the branch facts
+// holding where it is appended.
 type payAlt struct {
 	ws    []BufWrite
-	facts [][]string // per piece: the facts holding where it is appended (and on the way out of this alternative)
+	facts [][]string
 }
 
 func (c *Ctx) factStrings(b *ssa.BasicBlock, env map[ssa.Value]*X) []string {
@@ -302,21 +328,97 @@ func (c *Ctx) regFact(f Fact) string {
 	return s
 }
 
-// assemble resolves a []byte expression to the ordered pieces it is made of.
-// Recognised: the contents of a local bytes.Buffer, append chains, a make
-// followed by copies at running offsets, a plain value (one piece), a choice
-// between those (phi, or the returns of a helper of this package). extra are
-// facts holding for the whole alternative. bad reports that the assembly is
-// understood and wrong (a copy over an earlier piece), as opposed to not understood.
-func (c *Ctx) assemble(fn *ssa.Function, data *X, env map[ssa.Value]*X, extra []string, depth int) (alts []payAlt, why string, bad bool) {
-	if depth > 4 {
-		return nil, "payload assembly nested too deeply: " + data.String(), false
-	}
-	withExtra := func(a payAlt) payAlt {
-		for i := range a.facts {
-			a.facts[i] = append(append([]string{}, a.facts[i]...), extra...)
-		}
+func (a *payAlt) add(w BufWrite, facts []string) *payAlt {
+	return &payAlt{ws: append(append([]BufWrite{}, a.ws...), w), facts: append(append([][]string{}, a.facts...), facts)}
+}
+
+func (a *payAlt) with(extra []string) *payAlt {
+	if len(extra) == 0 {
 		return a
+	}
+	out := &payAlt{ws: a.ws}
+	for _, f := range a.facts {
+		out.facts = append(out.facts, append(append([]string{}, f...), extra...))
+	}
+	return out
+}
+
+// joinAlts folds alternatives (the edges of a phi, the returns of a helper)
+// into one sequence: their common prefix, each piece under the facts common
+// to all alternatives, followed by each alternative's own tail under its own
+// facts (the alternatives exclude one another, so at most one tail is there).
+func joinAlts(alts []*payAlt) *payAlt {
+	if len(alts) == 1 {
+		return alts[0]
+	}
+	n := 0
+	for {
+		same := len(alts[0].ws) > n
+		for _, a := range alts {
+			if !same {
+				break
+			}
+			if len(a.ws) <= n || a.ws[n].Arg.String() != alts[0].ws[n].Arg.String() || kindOf(a.ws[n].Method) != kindOf(alts[0].ws[n].Method) {
+				same = false
+			}
+		}
+		if !same {
+			break
+		}
+		n++
+	}
+	out := &payAlt{}
+	for i := 0; i < n; i++ {
+		common := map[string]int{}
+		for _, a := range alts {
+			seen := map[string]bool{}
+			for _, f := range a.facts[i] {
+				if !seen[f] {
+					seen[f] = true
+					common[f]++
+				}
+			}
+		}
+		var fs []string
+		for _, f := range alts[0].facts[i] {
+			if common[f] == len(alts) {
+				fs = append(fs, f)
+				common[f] = 0
+			}
+		}
+		out.ws = append(out.ws, alts[0].ws[i])
+		out.facts = append(out.facts, fs)
+	}
+	for _, a := range alts {
+		for i := n; i < len(a.ws); i++ {
+			out.ws = append(out.ws, a.ws[i])
+			out.facts = append(out.facts, a.facts[i])
+		}
+	}
+	return out
+}
+
+// kindOf: whether a piece appends a run of bytes or a single byte.
+func kindOf(method string) string {
+	switch method {
+	case "WriteByte", "byte":
+		return "byte"
+	case "WriteRune":
+		return "rune"
+	}
+	return "bytes"
+}
+
+// assemble resolves a []byte expression to the ordered pieces it is made of.
+// Recognised: the contents of a local bytes.Buffer, append chains (also round
+// a loop), a make followed by copies at running offsets, a plain value (one
+// piece), a choice between those (phi, or the returns of a helper of this
+// package). extra are facts holding for the whole of it. bad reports that the
+// assembly is understood and wrong (a copy over an earlier piece), as opposed
+// to not understood.
+func (c *Ctx) assemble(fn *ssa.Function, data *X, env map[ssa.Value]*X, extra []string, depth int) (seq *payAlt, why string, bad bool) {
+	if depth > 12 {
+		return nil, "payload assembly nested too deeply: " + data.String(), false
 	}
 	if b, ok := Match(Call("bytes.Buffer).Bytes", Bind("buf")), data); ok {
 		buf := b["buf"]
@@ -327,11 +429,11 @@ func (c *Ctx) assemble(fn *ssa.Function, data *X, env map[ssa.Value]*X, extra []
 		if len(ws) == 0 {
 			return nil, "no writes to the payload buffer found", false
 		}
-		a := payAlt{ws: ws}
+		a := &payAlt{ws: ws}
 		for _, w := range ws {
 			a.facts = append(a.facts, c.factStrings(w.In.Block(), env))
 		}
-		return []payAlt{withExtra(a)}, "", false
+		return a.with(extra), "", false
 	}
 	d := strip(data)
 	if d.Op == "extract" {
@@ -345,7 +447,37 @@ func (c *Ctx) assemble(fn *ssa.Function, data *X, env map[ssa.Value]*X, extra []
 		if ph == nil {
 			break
 		}
+		// edges that come back round a loop: append(… append(this phi, x) …, y)
+		type loopPiece struct {
+			w  BufWrite
+			fs []string
+		}
+		var loops []loopPiece
+		var alts []*payAlt
 		for i, e := range ph.Edges {
+			var chain []loopPiece
+			v := e
+			isLoop := false
+			for k := 0; k < 16; k++ {
+				if v == ssa.Value(ph) {
+					isLoop = true
+					break
+				}
+				call, ok := v.(*ssa.Call)
+				if !ok {
+					break
+				}
+				bi, ok := call.Call.Value.(*ssa.Builtin)
+				if !ok || bi.Name() != "append" || len(call.Call.Args) != 2 {
+					break
+				}
+				chain = append([]loopPiece{{c.appendPiece(call, env), c.factStrings(call.Block(), env)}}, chain...)
+				v = call.Call.Args[0]
+			}
+			if isLoop {
+				loops = append(loops, chain...)
+				continue
+			}
 			pred := ph.Block().Preds[i]
 			fs := append([]string{}, extra...)
 			fs = append(fs, c.factStrings(pred, env)...)
@@ -358,43 +490,44 @@ func (c *Ctx) assemble(fn *ssa.Function, data *X, env map[ssa.Value]*X, extra []
 			if sub == nil {
 				return nil, w, bd
 			}
-			alts = append(alts, sub...)
+			alts = append(alts, sub)
 		}
-		return alts, "", false
+		if len(alts) == 0 {
+			break
+		}
+		out := joinAlts(alts)
+		for _, lp := range loops {
+			out = out.add(lp.w, append(append([]string{}, lp.fs...), extra...))
+		}
+		return out, "", false
 	case "builtin":
-		if d.Name == "append" && len(d.Args) == 2 {
-			in, _ := d.V.(ssa.Instruction)
-			if in == nil {
-				break
-			}
-			heads, w, bd := c.assemble(fn, d.Args[0], env, extra, depth+1)
-			if heads == nil {
+		if call, ok := d.V.(*ssa.Call); ok && d.Name == "append" && len(call.Call.Args) == 2 {
+			head, w, bd := c.assemble(fn, d.Args[0], env, extra, depth+1)
+			if head == nil {
 				return nil, w, bd
 			}
-			here := append(c.factStrings(in.Block(), env), extra...)
-			for _, h := range heads {
-				h.ws = append(append([]BufWrite{}, h.ws...), BufWrite{Method: "append", Arg: d.Args[1], In: in})
-				h.facts = append(append([][]string{}, h.facts...), here)
-				alts = append(alts, h)
-			}
-			return alts, "", false
+			return head.add(c.appendPiece(call, env), append(c.factStrings(call.Block(), env), extra...)), "", false
 		}
 	case "nil":
-		return []payAlt{{}}, "", false
+		return &payAlt{}, "", false
 	case "makeslice":
 		ms, _ := d.V.(*ssa.MakeSlice)
 		if ms == nil {
 			break
 		}
+		if cst, ok := ms.Len.(*ssa.Const); ok && cst.Value != nil && cst.Value.ExactString() == "0" {
+			return &payAlt{}, "", false // make([]byte, 0, n): the empty head of an append chain
+		}
 		a, w, bd := c.copiesInto(fn, ms, env)
 		if w != "" {
 			return nil, w, bd
 		}
-		return []payAlt{withExtra(a)}, "", false
+		return (&a).with(extra), "", false
 	case "call":
 		if call, isCall := d.V.(*ssa.Call); isCall {
 			if callee := call.Call.StaticCallee(); callee != nil && len(callee.Blocks) > 0 && callee.Pkg == fn.Pkg && callee.Signature.Results().Len() >= 1 {
 				cenv := c.callEnv(call, callee, env)
+				var alts []*payAlt
 				for _, blk := range callee.Blocks {
 					ret, isRet := blk.Instrs[len(blk.Instrs)-1].(*ssa.Return)
 					if !isRet || len(ret.Results) == 0 {
@@ -411,10 +544,10 @@ func (c *Ctx) assemble(fn *ssa.Function, data *X, env map[ssa.Value]*X, extra []
 					if sub == nil {
 						return nil, w, bd
 					}
-					alts = append(alts, sub...)
+					alts = append(alts, sub)
 				}
 				if len(alts) > 0 {
-					return alts, "", false
+					return joinAlts(alts), "", false
 				}
 			}
 		}
@@ -425,9 +558,35 @@ func (c *Ctx) assemble(fn *ssa.Function, data *X, env map[ssa.Value]*X, extra []
 		if in.Parent() == fn {
 			fs = c.factStrings(in.Block(), env)
 		}
-		return []payAlt{{ws: []BufWrite{{Method: "value", Arg: data, In: in}}, facts: [][]string{append(fs, extra...)}}}, "", false
+		return &payAlt{ws: []BufWrite{{Method: "value", Arg: data, In: in}}, facts: [][]string{append(fs, extra...)}}, "", false
 	}
 	return nil, "signed/verified bytes are not assembled in a way this rule follows (buffer writes, appends, make and copies): " + data.String(), false
+}
+
+// appendPiece describes what one append call adds: a run of bytes
+// (append(b, x...)) or single bytes (append(b, v), the variadic array of one element).
+func (c *Ctx) appendPiece(call *ssa.Call, env map[ssa.Value]*X) BufWrite {
+	arg := call.Call.Args[1]
+	if sl, ok := arg.(*ssa.Slice); ok {
+		if al, ok := sl.X.(*ssa.Alloc); ok {
+			if arr, ok := deref(al.Type()).Underlying().(*types.Array); ok && arr.Len() == 1 {
+				var val ssa.Value
+				for _, r := range *al.Referrers() {
+					if ia, ok := r.(*ssa.IndexAddr); ok {
+						for _, r2 := range *ia.Referrers() {
+							if st, ok := r2.(*ssa.Store); ok && st.Addr == ssa.Value(ia) {
+								val = st.Val
+							}
+						}
+					}
+				}
+				if val != nil {
+					return BufWrite{Method: "byte", Arg: subst(c.E(val), env), In: call}
+				}
+			}
+		}
+	}
+	return BufWrite{Method: "append", Arg: subst(c.E(arg), env), In: call}
 }
 
 // copiesInto reads 'p := make([]byte, n); copy(p, a); copy(p[len(a):], b)' as the pieces a, b.
@@ -520,86 +679,76 @@ func (c *Ctx) copiesInto(fn *ssa.Function, ms *ssa.MakeSlice, env map[ssa.Value]
 	return a, "", false
 }
 
-// mergeAlts folds the alternatives into one sequence: the longest one, of which
-// every other must be a prefix; a piece carries as guards the facts common to
-// the alternatives containing it, less those common to all alternatives.
-func mergeAlts(alts []payAlt) ([]BufWrite, string) {
-	long := alts[0]
-	for _, a := range alts {
-		if len(a.ws) > len(long.ws) {
-			long = a
-		}
-	}
-	if len(long.ws) == 0 {
-		return nil, "payload is empty"
-	}
-	inter := func(sets [][]string) map[string]bool {
-		out := map[string]bool{}
-		for i, s := range sets {
-			m := map[string]bool{}
-			for _, f := range s {
-				m[f] = true
-			}
-			if i == 0 {
-				out = m
-				continue
-			}
-			for f := range out {
-				if !m[f] {
-					delete(out, f)
-				}
-			}
-		}
-		return out
-	}
-	var firsts [][]string
-	for _, a := range alts {
-		if len(a.ws) == 0 {
-			return nil, "one alternative of the payload is empty"
-		}
-		for i, w := range a.ws {
-			if w.Arg.String() != long.ws[i].Arg.String() {
-				return nil, "the alternatives of the payload are not prefixes of one sequence: " + writesString(a.ws) + " vs " + writesString(long.ws)
-			}
-		}
-		firsts = append(firsts, a.facts[0])
-	}
-	base := inter(firsts)
-	out := make([]BufWrite, len(long.ws))
-	for i := range long.ws {
-		out[i] = long.ws[i]
-		out[i].Guards = nil
-		var sets [][]string
-		for _, a := range alts {
-			if len(a.ws) > i {
-				sets = append(sets, a.facts[i])
-			}
-		}
-		for f := range inter(sets) {
-			if !base[f] {
-				out[i].Guards = append(out[i].Guards, f)
-			}
-		}
-		sort.Strings(out[i].Guards)
-	}
-	return out, ""
-}
-
 // payloadKey renders a piece sequence for comparison: how the bytes are appended
 // (buffer write, append, copy) does not matter, what is appended and when does.
+// When every guard and every topic-derived piece can be evaluated over the
+// states of the optional topic, the key is the effective sequence per state.
 func (c *Ctx) payloadKey(ws []BufWrite) string {
+	if seqs, ok := c.payloadByState(ws); ok {
+		return "topic absent: " + strings.Join(seqs[0], " ; ") + " | topic non-empty: " + strings.Join(seqs[2], " ; ")
+	}
 	var parts []string
 	for _, w := range ws {
-		switch w.Method {
-		case "Write", "WriteString", "append", "copy", "value":
-			w.Method = "bytes"
-		}
+		w.Method = kindOf(w.Method)
 		if st, ok := c.topicStates(w.Guards); ok && len(w.Guards) > 0 {
 			w.Guards = []string{st}
 		}
 		parts = append(parts, w.String())
 	}
 	return strings.Join(parts, " ; ")
+}
+
+// payloadByState gives, for the topic absent (0) and non-empty (2), the pieces
+// actually appended: those whose guards hold in that state and whose value is
+// not the empty string there. A piece that is the topic (or "" when it is
+// absent) is named "topic".
+func (c *Ctx) payloadByState(ws []BufWrite) (map[int][]string, bool) {
+	out := map[int][]string{}
+	for _, st := range []int{0, 2} {
+		out[st] = []string{}
+		for _, w := range ws {
+			holds := true
+			for _, g := range w.Guards {
+				f, known := c.factOf[g]
+				if !known {
+					return nil, false
+				}
+				v, ok := c.evalTopic(f.Cond, st, 0)
+				if !ok || (v != "true" && v != "false") {
+					return nil, false
+				}
+				if (v == "true") != f.Val {
+					holds = false
+				}
+			}
+			if !holds {
+				continue
+			}
+			name := kindOf(w.Method) + "(" + w.Arg.String() + ")"
+			if w.Arg.Find(func(y *X) bool { _, m := Match(Field("Topic", Any()), y); return m }) != nil {
+				// derived from the topic: must be the topic string itself (or "" where there is none)
+				isStr := false
+				if w.Arg.V != nil {
+					if b, ok := w.Arg.V.Type().Underlying().(*types.Basic); ok && b.Info()&types.IsString != 0 {
+						isStr = true
+					}
+				}
+				v, ok := c.evalTopic(w.Arg, st, 0)
+				if !ok || !isStr || kindOf(w.Method) != "bytes" {
+					return nil, false
+				}
+				if v == "0" {
+					continue // appends nothing in this state
+				}
+				if v != "pos" {
+					return nil, false
+				}
+				name = "topic"
+			}
+			out[st] = append(out[st], name)
+		}
+	}
+	return out, true
 }
 
 func writesString(ws []BufWrite) string {
@@ -704,13 +853,10 @@ func runC03(c *Ctx) {
 		c.Check(c.payloadKey(vw) == c.payloadKey(sw), "C03.V2-payload-agreement", "head.Sign ≍ head.Validate › write sequence", vf.In.Pos(),
 			"both assemble: "+writesString(vw), "signer and verifier assemble different payloads: sign="+writesString(sw)+" verify="+writesString(vw))
 		// the sequence is CID bytes, then topic iff non-empty
-		shape := len(vw) == 2
-		if shape {
+		shape := false
+		if seqs, ok := c.payloadByState(vw); ok && len(seqs[0]) == 1 && len(seqs[2]) == 2 && len(vw) >= 1 {
 			_, a := Match(Call("cid.Cid).Bytes", Field("Cid", Field("Head", Any()))), vw[0].Arg)
-			_, b := Match(Field("Topic", Any()), vw[1].Arg)
-			bytesOf := func(m string) bool { return m == "Write" || m == "WriteString" || m == "append" || m == "copy" || m == "value" }
-			st, known := c.topicStates(vw[1].Guards)
-			shape = a && b && bytesOf(vw[0].Method) && bytesOf(vw[1].Method) && len(vw[0].Guards) == 0 && known && st == "topic ∈ {non-empty}"
+			shape = a && kindOf(vw[0].Method) == "bytes" && len(vw[0].Guards) == 0 && seqs[0][0] == seqs[2][0] && seqs[2][1] == "topic" && seqs[0][0] == "bytes("+vw[0].Arg.String()+")"
 		}
 		c.Check(shape, "C03.V2-payload-agreement", "head payload › CID bytes then topic iff non-empty", vf.In.Pos(),
 			"payload = Head.Cid.Bytes() ; *Topic iff len(*Topic) != 0", "payload is not (head CID bytes, then topic iff non-empty): "+writesString(vw))
